@@ -825,9 +825,8 @@ class PDFDocument:
         if stream.get("Type") is not LITERAL_OBJSTM:
             if settings.STRICT:
                 raise PDFSyntaxError("Not a stream object: %r" % stream)
-        try:
-            n = cast(int, stream["N"])
-        except KeyError:
+        n = stream.get("N")
+        if not isinstance(n, int):
             if settings.STRICT:
                 raise PDFSyntaxError("N is not defined: %r" % stream)
             n = 0
